@@ -238,6 +238,11 @@ def run_env(cfg, sid, transport, ka, latency, reject, seed):
     hold the encoding and the setting reads back."""
     vio = []
     n = 0
+    # ka 'newloop' / 'ka+newloop': a long-lived object used from successive asyncio.run() calls - every call of the
+    # history (write, read-back, the repeated write) runs on a new event loop, the previous one shut down and closed
+    kamode = ka
+    newloop = isinstance(ka, str) and 'newloop' in ka
+    ka = ka is True or (isinstance(ka, str) and ka.startswith('ka'))
     probe = make_rig(cfg, transport, fill=lambda a: 0)
     if probe.call(probe.inv.read_device_info)[0] != 'ok':
         return 0, []
@@ -266,11 +271,13 @@ def run_env(cfg, sid, transport, ka, latency, reject, seed):
             w0, l0 = len(dev.writes), len(dev.log)
             if k is not None:
                 dev.reject_at = {l0 + k: reject}
+            if newloop:
+                r.newloop()
             res = r.call(inv.write_setting, sid, v)
             dev.reject_at = {}
             n += 1
             vs = v.hex() if isinstance(v, bytes) else str(v)
-            env = f"ka={int(ka)},latency={latency}" + (f',request#{k}->exception {reject}' if k is not None else '')
+            env = f"ka={int(ka)},latency={latency}" + (',one-event-loop-per-call' if newloop else '') + (f',request#{k}->exception {reject}' if k is not None else '')
             if res[0] != 'ok':
                 if k is None:
                     vio.append((f'write-succeeds/{t}/env', f'write_setting({sid!r}, {vs}) -> {res[1:]} ({env})', vs))
@@ -284,6 +291,8 @@ def run_env(cfg, sid, transport, ka, latency, reject, seed):
                                                              f'encoding {want.hex()} ({env})', vs))
             for when in (('at-once', 'after-read-back') if k is None else ('after-read-back',)):
                 if when == 'after-read-back':
+                    if newloop:
+                        r.newloop()
                     back = r.call(inv.read_setting, sid)
                     if back[0] == 'ok' and not isinstance(v, bytes) and not (refdec.same(back[1], v) or back[1] == v) \
                             and t not in ('Decimal', 'Voltage', 'Current', 'CurrentS'):
@@ -294,6 +303,8 @@ def run_env(cfg, sid, transport, ka, latency, reject, seed):
                 # byte-for-byte those of the first call; it is again exactly one write, and it succeeds
                 prior2 = dev.rf.getbytes(s.offset, nregs)
                 w1 = len(dev.writes)
+                if newloop:
+                    r.newloop()
                 res2 = r.call(inv.write_setting, sid, v)
                 n += 1
                 if res2[0] != 'ok':
@@ -695,6 +706,7 @@ def run(tier, seed, rep):
                 for ka in (False, True):
                     for lat in ENV_LATENCY:
                         ejobs.append((cfg, sid, transport, ka, lat, 0, seed))
+                    ejobs.append((cfg, sid, transport, 'ka+newloop' if ka else 'newloop', 0.001, 0, seed))
                     if transport == 'udp' or tier == 'thorough':
                         for code in (1, 2, 3, 4, 5, 6, 7, 8, 10, 11, 0x55):
                             ejobs.append((cfg, sid, transport, ka, 0.001, code, seed))
